@@ -139,7 +139,7 @@ def _dims(env, kind, d1, d2, order="sorted"):
     return a if kind != "Nx4_df" else pd.DataFrame(a)
 
 
-def h_flip_handedness(env, kind="Nx4", twice=False, single_tomo=False, order="sorted", index="default"):
+def h_flip_handedness(env, kind="Nx4", twice=False, single_tomo=False, order="sorted", index="default", reuse=False):
     cm = env.module("cryomotl")
     rows = [_sym_particle(env, "p0", tomo=1.0, sub=1.0), _second(1.0 if single_tomo else 2.0)]
     m = mk_motl(env, cm, rows)
@@ -150,8 +150,14 @@ def h_flip_handedness(env, kind="Nx4", twice=False, single_tomo=False, order="so
     d2 = env.real("dimz2", 1, 10000)
     dims = _dims(env, kind, d1, d2, order)
     m.flip_handedness(dims)
+    if reuse:
+        # the caller's dimension table is an input, not scratch space: it must come back unchanged ...
+        fresh = _dims(env, kind, d1, d2, order)
+        fa, da = np.asarray(fresh, dtype=object).ravel(), np.asarray(dims, dtype=object).ravel()
+        env.check("callers_dimension_table_unchanged", env.and_(*[env.eq(u, v) for u, v in zip(da, fa)]) if len(da) == len(fa) else env.not_(env.true()))
     if twice:
-        m.flip_handedness(_dims(env, kind, d1, d2, order))
+        # ... so that the same object can be used for the second flip
+        m.flip_handedness(dims if reuse else _dims(env, kind, d1, d2, order))
     dz = [d1, d1 if (kind.startswith("1x3")) else d2]
     S = [[1.0, 0.0, 0.0], [0.0, 1.0, 0.0], [0.0, 0.0, -1.0]]
     for i, b in enumerate(before):
@@ -196,6 +202,8 @@ def jobs(tier, seed):
         ("h_flip_handedness", {"kind": "1x3"}),
         ("h_flip_handedness", {"kind": "1x3_list", "single_tomo": True}),
         ("h_flip_handedness", {"kind": "Nx4", "twice": True}),
+        ("h_flip_handedness", {"kind": "Nx4_df", "twice": True, "reuse": True}),
+        ("h_flip_handedness", {"kind": "Nx4", "twice": True, "reuse": True}),
         ("h_flip_handedness", {"kind": "Nx4", "order": "unsorted", "index": "gaps"}),
         ("h_update_coordinates", {"n_sym": n, "index": "gaps"}),
         ("h_scale_coordinates", {"n_sym": n, "index": "reversed"}),
